@@ -355,10 +355,7 @@ func runC14(res *Result, rng *RNG, tier string, outDir string) {
 			res.Violate("panic:parse", "a parse function panicked: "+pan, map[string]interface{}{"text": txt, "bytes": fmt.Sprintf("%x", b)})
 		}
 	}
-	cf := NewCasesFile("Base Term Lexer Parser Corr2")
-	cf.Raw("Definition cases : list parse_case := [\n  " + joinLines(lines) + "].\n")
-	cf.Raw("Definition M := Eval vm_compute in mismatches parse_ok cases.\nPrint M.\n")
-	cf.WriteTo(outDir, "Cases_C14.v")
+	WriteShards(res, outDir, "C14", "Base Term Lexer Parser Corr2", "", "parse_case", "parse_ok", lines, 600)
 	res.ModelCases = len(lines)
 	res.CaseDescs = descs
 }
